@@ -33,6 +33,16 @@ theorem oneof_arms_total :
     (∀ k ∈ allKinds, k ∈ sizeOneofKinds) ∧ (∀ k ∈ allKinds, k ∈ marshalOneofKinds) ∧
     (∀ k ∈ allKinds, k ∈ unmarshalOneofKinds) := by decide
 
+/-- the extension snippets are if/else chains over the kind: every kind has an arm in each of them, and each snippet
+    has an arm of its own for a REPEATED extension (which walks the slice / appends to it) — the model's
+    `Ext.extFD … true = Card.list`, `Ext.extFD … false = Card.explicit` -/
+theorem extension_arms_total :
+    (∀ k ∈ allKinds, k ∈ sizeExtensionKinds) ∧ (∀ k ∈ allKinds, k ∈ marshalExtensionKinds) ∧
+    (∀ k ∈ allKinds, k ∈ unmarshalExtensionKinds) ∧ (∀ k ∈ allKinds, k ∈ unmarshalRepeatedExtensionKinds) := by decide
+theorem extension_repeated_arms :
+    extensionRepeatedArms = [("SizeOfExtension", true), ("MarshalExtension", true), ("UnmarshalExtension", true)] ∧
+    repeatedExtensionAppends = true := by decide
+
 /-- `UnmarshalNumber` has an arm for every kind `UnmarshalField` sends to it -/
 theorem number_arms_total :
     ∀ k ∈ ["bool", "int32", "int64", "uint32", "uint64", "sint32", "sint64", "fixed32", "float",
